@@ -9,6 +9,8 @@ for tc in ET.parse(x).getroot().iter("testcase"):
     if not any(c.tag in ("failure", "error", "skipped") for c in tc):
         ok.add(tc.get("classname") + "::" + tc.get("name"))
 os.remove(x)
+# the example tests rewrite a tracked pdf in the repository root: put it back
+subprocess.run(["git", "-C", "/repo", "checkout", "--", "safe_sequences_example.pdf"], capture_output=True)
 missing = [t for t in b["stable_pass"] if t not in ok]
 print("stable_pass=%d passed_now=%d missing=%s" % (len(b["stable_pass"]), len(ok & set(b["stable_pass"])), missing))
 sys.exit(1 if missing else 0)
